@@ -48,12 +48,13 @@ Proof.
     + rewrite aget_adel_other, aget_aset_other by exact Hne. reflexivity.
 Qed.
 
-(* rollback: if executing the new source fails at any statement index - and execution itself only
+(* rollback: if executing the new source fails at any statement index with an exception of any class
+   (BaseException included) - and execution itself only
    wrote objects it allocated (frame hypothesis on the exec oracle) - the exception propagates,
    every old object and every registry entry is as before the attempt *)
-Theorem rollback bases_ok nm fuel w name module scratch kl mt idx h1 :
+Theorem rollback bases_ok nm fuel w name module scratch kl mt idx exc h1 :
   (forall a, In a (dom (wheap w)) -> lookup h1 a = lookup (wheap w) a) ->
-  let r := xreload bases_ok nm fuel w name module scratch kl mt (ExecFail idx h1) in
+  let r := xreload bases_ok nm fuel w name module scratch kl mt (ExecFail idx exc h1) in
   snd r = Raise /\
   (forall n, aget (wreg (fst r)) n = aget (wreg w) n) /\
   (forall a, In a (dom (wheap w)) -> lookup (wheap (fst r)) a = lookup (wheap w) a).
